@@ -6,7 +6,7 @@ From Coq Require Import ZArith List Bool String.
 From V Require Model.Date Model.Time.
 From V Require Model.Parsed.
 From V Require Import Base.Int Base.IO Base.Utf8 Model.Scan Model.DateTime Model.C11 Spec.Rfc2822 Judge.C11
-  Proofs.Utf8 Proofs.Scan Proofs.C11 Proofs.C11Scan Proofs.C11Resolve Proofs.C11Reader.
+  Spec.Gregorian Proofs.C08Sweeps Proofs.C04 Proofs.Utf8 Proofs.Scan Proofs.C11 Proofs.C11Scan Proofs.C11Resolve Proofs.C11Reader Proofs.C11Write.
 Import ListNotations.
 Open Scope Z_scope.
 
@@ -96,3 +96,27 @@ Theorem C11_spec_comment_exact : forall s rest,
   comment_rest s = Some rest <-> exists a, ccontent a /\ s = 40 :: a ++ 41 :: rest.
 Proof. exact comment_rest_exact. Qed.
 Print Assumptions C11_spec_comment_exact.
+
+(* writer_shape: for every date-time (valid date word [d] of year y / ordinal o, time of day [t] with
+   any leap-second field, offset below 24 h) with a whole-minute offset and wall-clock year 0..9999,
+   DateTime::to_rfc2822 returns exactly "Www, D Mon YYYY HH:MM:SS +hhmm" of the wall clock: the day
+   of week of the calendar (Spec/Gregorian.v weekday_of_dn), unpadded day, leap second as :60 *)
+Theorem C11_writer_shape : forall y o d t off, repr y o d -> time_ok t -> -86400 < off < 86400 -> off mod 60 = 0 ->
+  0 <= fst (yo_of_dn (wall_dn y o (Time.tsecs t) off)) <= 9999 ->
+  to_rfc2822 (mk_dtz (mk_ndt d t) off) = Val (standard_text false y o (Time.tsecs t) (Time.tfrac t) off).
+Proof. exact writer_shape. Qed.
+Print Assumptions C11_writer_shape.
+Example C11_writer_shape_inhabited :
+  match dec_dtz (VTup [VInt 2003; VInt 182; VInt 31957; VInt 0; VInt 7200]) with
+  | Some a => to_rfc2822 a = Val (B"Tue, 1 Jul 2003 10:52:37 +0200")
+  | None => False end.
+Proof. vm_compute. reflexivity. Qed.
+Print Assumptions C11_writer_shape_inhabited.
+
+(* outside wall-clock years 0..9999 (wall clock still a supported date): the documented panic *)
+Theorem C11_writer_panics : forall y o d t off, repr y o d -> time_ok t -> -86400 < off < 86400 ->
+  dn_in_range (wall_dn y o (Time.tsecs t) off) = true ->
+  ~ (0 <= fst (yo_of_dn (wall_dn y o (Time.tsecs t) off)) <= 9999) ->
+  to_rfc2822 (mk_dtz (mk_ndt d t) off) = Panic.
+Proof. exact writer_panics. Qed.
+Print Assumptions C11_writer_panics.
